@@ -8,7 +8,7 @@ CFG = {
              "written by norad (3k / 60k) plus every file missing / a directory / a symlink loop and adversarial directory and glif paths in layercontents.plist "
              "and contents.plist; API-built values the documentation does not exclude; deep nesting (up to 100k / 400k levels) in child processes. Every call "
              "under catch_unwind with the panic location recorded; whatever loads is also saved/encoded. The modelled entry points are covered by theorems "
-             "(obligations). In addition the generators of C02, C06, C07, C12, C13, C14, C15, C16 and C18 are run and only their panic / abort / hang "
+             "(obligations). In addition the generators of C02, C06, C07, C08, C12, C13, C14, C15, C16 and C18 are run and only their panic / abort / hang "
              "rules are kept (every correspondence run is also a totality run). non-trivial = a mutation was applied; distinct by input tokens"),
     "exhaustive": {"quick": False, "thorough": False},
     "trusted_base": COMMON_TRUST + [
@@ -26,10 +26,10 @@ CFG = {
     ],
     # every other property's generator is also a C03 run: only their panic / abort / hang rules count here,
     # their model agreement is their own business, their recorded findings are matched under their own ids
-    "gens": ["C03", "C02", "C06", "C07", "C12", "C13", "C14", "C15", "C16", "C18"],
-    "borrowed_gens": ["C02", "C06", "C07", "C12", "C13", "C14", "C15", "C16", "C18"],
-    "gen_rules": {g: ["*panic*", "*abort*", "*hang*"] for g in ["C02", "C06", "C07", "C12", "C13", "C14", "C15", "C16", "C18"]},
-    "also_findings_of": ["C02", "C06", "C07", "C12", "C13", "C14", "C15", "C16", "C18"],
+    "gens": ["C03", "C02", "C06", "C07", "C08", "C12", "C13", "C14", "C15", "C16", "C18"],
+    "borrowed_gens": ["C02", "C06", "C07", "C08", "C12", "C13", "C14", "C15", "C16", "C18"],
+    "gen_rules": {g: ["*panic*", "*abort*", "*hang*"] for g in ["C02", "C06", "C07", "C08", "C12", "C13", "C14", "C15", "C16", "C18"]},
+    "also_findings_of": ["C02", "C06", "C07", "C08", "C12", "C13", "C14", "C15", "C16", "C18"],
     "timeout": {"quick": 900, "thorough": 14400},
     "no_search": True,
     # debug assertions and overflow checks only exist in a debug build: the API families and the SMALL stream are run
